@@ -13,6 +13,9 @@ VALID = [
     "package y\n@goht C() {\n\t%p text\n}\n",
     "package x\n\n@goht (r *R) D(v string) {\n\t= @render r.E(v)\n\t\t%b= v\n}\n\n@goht (r *R) E(v string) {\n\t.box{a: #{v}}\n\t\t= @children\n}\n",
 ]
+# the same generated code from a different template text: positions shift, code does not
+SHIFTED = VALID[0].replace("@goht A(s string, n int) {\n", "@goht A(s string, n int) {\n\t-# a comment line that generates nothing\n")
+
 INVALID = [
     "package x\n\n@goht A(s string) {\n  %p two spaces\n}\n",
     "package x\n\n@goht A(s string) {\n\t%p{a: #{s}\n",
